@@ -149,12 +149,12 @@ def _structure_job(args):
                 measure(rec, "underflow-uniform", {"A": "G * 2^%d" % e_, "n": n}, G, pow2=e_)
             # only the PIVOT entry of the sub-column (the one the reflector maps the column onto) is that small while
             # the rest of the column is O(1): its modulus must not be formed from squared components either
-            for e_ in (-505, -512, -520, -530, -536, -540, -545, -1074):
+            for e_ in (-20, -27, -30, -34, -40, -46, -60, -505, -512, -520, -530, -536, -540, -545, -1074):
                 Dp = G.copy()
                 Dp[1, 0] *= 2.0 ** e_
                 if n >= 4 and e_ % 2:
                     Dp[2, 1] *= 2.0 ** e_
-                measure(rec, "underflow-pivot", {"A": "G with entry (1,0) scaled by 2^%d" % e_, "n": n}, Dp)
+                measure(rec, "underflow-pivot" if e_ < -100 else "small-pivot", {"A": "G with entry (1,0) scaled by 2^%d" % e_, "n": n}, Dp)
             # pure imaginary / single axis sub-column
             Pm = G.copy()
             Pm[1:, 0, 0] = 0
